@@ -43,7 +43,7 @@ func buildEras(seed int64) (*Scenario, error) {
 	spr := func(h uint32) { b.SPR(h, hprice(seed, h), richStakers) }
 
 	// ---- 101..105: grading v1, no transactions yet -------------------------------
-	// 101: one valid burn and five near-burns failing exactly one condition each
+	// 101: one valid burn and near-burns failing exactly one condition each
 	aliceBurn := 1000*fct + jit(1000)
 	b.Burn(101, alice, aliceBurn)
 	nb := func(i int) chain.SignerKey { return Key("nearburn", i) }
@@ -60,6 +60,8 @@ func buildEras(seed int64) (*Scenario, error) {
 		chain.FTx{FCTInputs: []chain.FTxIO{{Address: nb(3).FAAddress(), Amount: 5 * fct}}, ECOutputs: []chain.FTxIO{{Address: nb(13).FAAddress(), Amount: 0}}},
 		// non-zero EC amount
 		chain.FTx{FCTInputs: []chain.FTxIO{{Address: nb(4).FAAddress(), Amount: 5 * fct}}, ECOutputs: []chain.FTxIO{{Address: node.BurnRCD, Amount: 1}}},
+		// an FCT output of amount 0 (the outputs add up to nothing, but there is one)
+		chain.FTx{FCTInputs: []chain.FTxIO{{Address: nb(6).FAAddress(), Amount: 7 * fct}}, FCTOutputs: []chain.FTxIO{{Address: nb(16).FAAddress(), Amount: 0}}, ECOutputs: []chain.FTxIO{burnEC}},
 		// no EC output at all (plain transfer)
 		chain.FTx{FCTInputs: []chain.FTxIO{{Address: nb(5).FAAddress(), Amount: 5 * fct}}, FCTOutputs: []chain.FTxIO{{Address: nb(15).FAAddress(), Amount: 5 * fct}}},
 	)
